@@ -209,7 +209,7 @@ Definition b_example : bdesc :=
       [ns_ref_example] [] [ns_ref_example; NsPubkey (hx "77")] [hx "f1"]
       [PoolRegistration (hx "04") [hx "05"; hx "06"]; UnregDRepCertificate (KeyH (hx "07")); StakeRegistration (KeyH (hx "08"));
        AuthCommitteeHotCertificate (KeyH (hx "09")) (KeyH (hx "0a"))]
-      [KeyH (hx "0b"); ScriptH (hx "0c")] [VoterDRep (KeyH (hx "0d")); VoterPool (hx "0e"); VoterCommitteeHot (ScriptH (hx "0f"))] None.
+      [KeyH (hx "0b"); ScriptH (hx "0c")] [VoterDRep (KeyH (hx "0d")); VoterPool (hx "0e"); VoterCommitteeHot (ScriptH (hx "0f"))] None [] [].
 Example required_complete_nonvacuous :
   refs_registeredb SH_example b_example = true /\ refs_usedb SH_example b_example = true
   /\ map tohex (Ledger.required_key_hashes SH_example (tx_of SH_example b_example))
@@ -227,7 +227,7 @@ Qed.
 
 (* the region the reference-script extension is about: the script is in all_scripts but not in scripts *)
 Definition b_ref_only : bdesc :=
-  mkB [KeyH kA] [] [] [] [ns_ref_example] [ns_ref_example] [] [ns_ref_example] [hx "f1"] [] [] [] None.
+  mkB [KeyH kA] [] [] [] [ns_ref_example] [ns_ref_example] [] [ns_ref_example] [hx "f1"] [] [] [] None [] [].
 Lemma reference_script_keys_required :
   exists SH b kh, refs_registered SH b /\ refs_used SH b /\ witness_scripts SH b = [] /\
     In kh (Ledger.required_key_hashes SH (tx_of SH b)) /\ In kh (builder_required b)
@@ -247,7 +247,7 @@ Lemma legacy_registration_overincluded :
   exists b kh, forall SH, refs_registered SH b /\ refs_used SH b /\
     In kh (builder_required b) /\ ~ In kh (Ledger.required_key_hashes SH (tx_of SH b)).
 Proof.
-  exists (mkB [] [] [] [] [] [] [] [] [] [StakeRegistration (KeyH kA)] [] [] None), kA. intros SH.
+  exists (mkB [] [] [] [] [] [] [] [] [] [StakeRegistration (KeyH kA)] [] [] None [] []), kA. intros SH.
   split; [intros s []|]. split; [intros s []|].
   split; cbn; tauto.
 Qed.
@@ -418,6 +418,8 @@ Section SignProofs.
   Notation sign_loop := (sign_loop H28 ord_pub ord_sign ext_sign).
   Notation sign_witnesses := (sign_witnesses H28 ord_pub ord_sign ext_sign).
   Notation after_auto := (after_auto SH H28 ord_pub).
+  Notation after_build := (after_build SH H28 ord_pub).
+  Notation fee_witness_count := (fee_witness_count SH H28 ord_pub).
   Notation build_and_sign_witnesses := (build_and_sign_witnesses SH H28 H32 ord_pub ord_sign ext_sign).
 
   Definition wit_hash (w : wit) : bytes := H28 (w_vk w).
@@ -506,12 +508,12 @@ Section SignProofs.
     after_auto auto keys b = b \/ exists rs, after_auto auto keys b = set_required_signers b rs.
   Proof.
     unfold Witness.after_auto.
-    destruct (b_required_signers b); [|now left].
+    destruct (nilb (b_required_signers b)); [|now left].
     destruct auto as [[|]|]; [| now left |].
-    - destruct (negb match scripts SH b with [] => true | _ :: _ => false end).
+    - destruct (has_scripts SH b).
       + destruct keys; [now left | right; eauto].
-      + destruct (negb match all_scripts b with [] => true | _ :: _ => false end); [right; eauto | now left].
-    - destruct (negb match all_scripts b with [] => true | _ :: _ => false end); [right; eauto | now left].
+      + destruct (is_smart b); [right; eauto | now left].
+    - destruct (is_smart b); [right; eauto | now left].
   Qed.
   Lemma refs_registered_after auto keys b : refs_registered SH b -> refs_registered SH (after_auto auto keys b).
   Proof.
@@ -522,31 +524,157 @@ Section SignProofs.
     intros H. destruct (after_auto_cases auto keys b) as [->|(rs & ->)]; [exact H|]. exact H.
   Qed.
 
+  (* build(): coin selection extends inputs, _set_collateral_return extends collateral, the automatic step in between
+     may set required_signers; nothing else changes *)
+  Definition same_but (b b' : bdesc) (ins cols : list cred) : Prop :=
+    b_inputs b' = b_inputs b ++ ins /\ b_collateral b' = b_collateral b ++ cols
+    /\ b_native_scripts b' = b_native_scripts b /\ b_attached b' = b_attached b
+    /\ b_reference_scripts b' = b_reference_scripts b /\ b_input_scripts b' = b_input_scripts b
+    /\ b_refin_scripts b' = b_refin_scripts b /\ b_mint b' = b_mint b /\ b_certs b' = b_certs b
+    /\ b_withdrawals b' = b_withdrawals b /\ b_voters b' = b_voters b
+    /\ b_witness_override b' = b_witness_override b.
+  Lemma after_build_fields auto keys sel b :
+    same_but b (after_build auto keys sel b) (sel_inputs sel) (sel_collateral sel).
+  Proof.
+    unfold Witness.after_build.
+    destruct (after_auto_cases auto keys (add_inputs (sel_inputs sel) b)) as [->|(rs & ->)];
+      unfold same_but; cbn; repeat split; reflexivity.
+  Qed.
+  Lemma after_build_no_selection auto keys b :
+    after_build auto keys no_selection b = after_auto auto keys b.
+  Proof.
+    unfold Witness.after_build, no_selection; cbn [sel_inputs sel_collateral].
+    assert (E : add_inputs [] b = b) by (destruct b; unfold add_inputs; cbn; now rewrite app_nil_r).
+    rewrite E. destruct (after_auto auto keys b); unfold add_collateral; cbn. now rewrite app_nil_r.
+  Qed.
+
+  (* every key-locked UTxO build() adds — as input or as collateral — has its key in the required set afterwards *)
+  Lemma selected_keys_required auto keys sel b kh :
+    In (KeyH kh) (sel_inputs sel ++ sel_collateral sel) -> In kh (builder_required (after_build auto keys sel b)).
+  Proof.
+    intros H. clear H32 ord_sign ext_sign. destruct (after_build_fields auto keys sel b) as (Ei & Ec & _).
+    unfold builder_required, input_vkey_hashes. rewrite Ei, Ec. apply in_or_app. left.
+    apply in_flat_map. exists (KeyH kh). split; [|now left].
+    rewrite !in_app_iff in *. tauto.
+  Qed.
+
+  Definition is_key (c : cred) : bool := match c with KeyH _ => true | ScriptH _ => false end.
+  Lemma scripts_needed_after auto keys sel b h :
+    In h (Ledger.scripts_needed (tx_of SH (after_build auto keys sel b)))
+    <-> In h (Ledger.scripts_needed (tx_of SH b)) \/ In h (flat_map cred_scripts (sel_inputs sel)).
+  Proof.
+    destruct (after_build_fields auto keys sel b) as (Ei & Ec & E1 & E2 & E3 & E4 & E5 & E6 & E7 & E8 & E9 & E10).
+    unfold Ledger.scripts_needed; cbn [tx_of d_inputs d_mint d_certs d_withdrawals d_voters].
+    rewrite Ei, E6, E7, E8, E9, flat_map_app, !in_app_iff. clear H32 ord_sign ext_sign. tauto.
+  Qed.
+  Lemma all_scripts_after auto keys sel b : all_scripts (after_build auto keys sel b) = all_scripts b.
+  Proof.
+    destruct (after_build_fields auto keys sel b) as (Ei & Ec & E1 & E2 & _). unfold all_scripts. now rewrite E1, E2.
+  Qed.
+  (* the side conditions on reference scripts carry over from the prepared builder: refs_used always, refs_registered
+     when coin selection added key-locked UTxOs only (what selectors pick from a key address) *)
+  Lemma refs_used_after_build auto keys sel b :
+    refs_used SH b -> refs_used SH (after_build auto keys sel b).
+  Proof.
+    intros U s Hs Hr. rewrite all_scripts_after in Hs.
+    destruct (after_build_fields auto keys sel b) as (Ei & Ec & E1 & E2 & E3 & E4 & E5 & _).
+    rewrite E3, E4 in Hr. rewrite E4, E5. destruct (U s Hs Hr) as [U1 U2]. split; [exact U1|].
+    apply scripts_needed_after. now left.
+  Qed.
+  Lemma refs_registered_after_build auto keys sel b :
+    forallb is_key (sel_inputs sel) = true ->
+    refs_registered SH b -> refs_registered SH (after_build auto keys sel b).
+  Proof.
+    intros K R s Hs Hn. rewrite all_scripts_after.
+    destruct (after_build_fields auto keys sel b) as (Ei & Ec & E1 & E2 & E3 & E4 & E5 & _).
+    rewrite E4, E5 in Hs. apply R; [exact Hs|].
+    apply scripts_needed_after in Hn as [Hn|Hn]; [exact Hn|]. exfalso.
+    apply in_flat_map in Hn as (c & Hc & Hh). rewrite forallb_forall in K. specialize (K c Hc).
+    destruct c; [destruct Hh | discriminate].
+  Qed.
+
   (* the same, for build_and_sign on a builder, against the LEDGER's requirement for the emitted transaction *)
-  Theorem build_and_sign_spec : forall b auto force keys body,
+  Theorem build_and_sign_spec : forall b auto force keys sel body,
     Forall wf_key keys ->
-    let b' := after_auto auto keys b in
+    let b' := after_build auto keys sel b in
     let txid := H32 body in
-    let ws := build_and_sign_witnesses b auto force keys body in
+    let ws := build_and_sign_witnesses b auto force keys sel body in
     (forall w, In w ws -> exists k, In k keys /\ w_vk w = vk32 k /\ w_sig w = sign_with k txid
                                     /\ (force = true \/ In (key_hash k) (builder_required b')))
-    /\ (refs_registered SH b ->
+    /\ (refs_registered SH b' ->
         forall kh, In kh (Ledger.required_key_hashes SH (tx_of SH b')) -> (exists k, In k keys /\ key_hash k = kh) ->
           exists w, In w ws /\ H28 (w_vk w) = kh)
     /\ (force = true -> forall k, In k keys -> exists w, In w ws /\ H28 (w_vk w) = key_hash k)
-    /\ (refs_used SH b -> force = false -> forall w, In w ws ->
+    /\ (refs_used SH b' -> force = false -> forall w, In w ws ->
           In (H28 (w_vk w)) (Ledger.required_key_hashes SH (tx_of SH b')) \/ In (H28 (w_vk w)) (legacy_registration_keys b'))
     /\ NoDup (map (fun w => H28 (w_vk w)) ws)
     /\ NoDup (map wit_bytes ws).
   Proof.
-    intros b auto force keys body WF b' txid ws.
+    intros b auto force keys sel body WF b' txid ws.
     destruct (witnesses_spec (builder_required b') force keys txid) as (S1 & S2 & S3 & S4 & S5).
     fold ws in S1, S2, S3, S4, S5. repeat split; auto.
-    - intros REG kh Hl (k & Hk & <-). apply S2; auto. right. apply (required_complete SH); [|exact Hl].
-      now apply refs_registered_after.
-    - intros USED Ef w Hw. apply (required_sound SH); [now apply refs_used_after | now apply S3].
+    - intros REG kh Hl (k & Hk & <-). apply S2; auto. right. now apply (required_complete SH).
+    - intros USED Ef w Hw. apply (required_sound SH); [exact USED | now apply S3].
+  Qed.
+
+  (* ---------- the placeholder witnesses of the final fee estimate ---------- *)
+  Lemma NoDup_incl_lenN (l l' : list bytes) : NoDup l -> incl l l' -> lenN l <= lenN l'.
+  Proof. intros ND I. rewrite !lenN_length. pose proof (NoDup_incl_length ND I). lia. Qed.
+  Lemma dedup_lenN_eq (l l' : list bytes) : (forall x, In x l <-> In x l') -> lenN (dedup l) = lenN (dedup l').
+  Proof.
+    intros E. apply N.le_antisymm; apply NoDup_incl_lenN; try apply dedup_NoDup;
+      intros x Hx; apply (proj2 (dedup_In x _)); apply (proj1 (dedup_In x _)) in Hx; first [exact (proj1 (E x) Hx) | exact (proj2 (E x) Hx)].
+  Qed.
+
+  (* as many placeholders as the transaction build() emits has distinct ledger-required key hashes: the keys of the
+     UTxOs taken by coin selection and of the collateral picked at the end are counted *)
+  Theorem fee_placeholders : forall b auto keys sel,
+    let b' := after_build auto keys sel b in
+    b_witness_override b = None ->
+    let n := lenN (dedup (builder_required b')) in
+    n <= 256 ->
+    let fw := fake_vkey_witnesses (fee_witness_count b auto keys sel) in
+    lenN fw = n /\ Forall (fun w => length (fst w) = 32%nat /\ length (snd w) = 64%nat) fw /\ NoDup fw
+    /\ (forall kh, In (KeyH kh) (sel_inputs sel ++ sel_collateral sel) -> In kh (builder_required b'))
+    /\ (refs_registered SH b' -> refs_used SH b' -> legacy_registration_keys b' = [] ->
+          n = lenN (dedup (Ledger.required_key_hashes SH (tx_of SH b')))).
+  Proof.
+    intros b auto keys sel b' Eo n Hn fw. clear H32 ord_sign ext_sign.
+    assert (Eo' : b_witness_override b' = None).
+    { destruct (after_build_fields auto keys sel b) as (_ & _ & _ & _ & _ & _ & _ & _ & _ & _ & _ & E). unfold b'. now rewrite E. }
+    destruct (fake_count b' Eo' Hn) as (F1 & F2 & F3).
+    repeat split; auto.
+    - intros kh. apply selected_keys_required.
+    - intros REG USED LEG. apply dedup_lenN_eq. intros kh. split.
+      + intros H. destruct (required_sound SH b' kh USED H) as [H'|H']; [exact H'|]. rewrite LEG in H'. destruct H'.
+      + now apply required_complete.
   Qed.
 End SignProofs.
+
+
+(* a Plutus spend whose collateral the builder picks from the wallet of another key (nothing else is key-locked):
+   the count taken before _set_collateral_return — the builder after coin selection and the automatic required
+   signers — is one short of what the emitted transaction needs; the count build() uses for the last fee is right *)
+Definition b_plutus_example : bdesc :=
+  mkB [ScriptH (hx "e1")] [] [] [] [] [] [] [] [] [] [] [] None [hx "e1"] [].
+Definition sel_example : selection := mkSel [] [KeyH kB].
+Lemma stale_count_refuted :
+  let SH := fun _ : nscript => kC in let H28 := fun b : bytes => firstn 1 b in let ord_pub := fun s : bytes => s in
+  picks_collateral b_plutus_example = true
+  /\ witness_count (after_auto SH H28 ord_pub None [] (add_inputs (sel_inputs sel_example) b_plutus_example)) = 0
+  /\ fee_witness_count SH H28 ord_pub b_plutus_example None [] sel_example = 1
+  /\ Ledger.required_key_hashes SH (tx_of SH (after_build SH H28 ord_pub None [] sel_example b_plutus_example)) = [kB].
+Proof. vm_compute. auto. Qed.
+Example fee_placeholders_nonvacuous :
+  let SH := fun _ : nscript => kC in let H28 := fun b : bytes => firstn 1 b in let ord_pub := fun s : bytes => s in
+  let b' := after_build SH H28 ord_pub None [] sel_example b_plutus_example in
+  b_witness_override b_plutus_example = None /\ lenN (dedup (builder_required b')) <= 256
+  /\ refs_registered SH b' /\ refs_used SH b' /\ legacy_registration_keys b' = [].
+Proof.
+  cbv zeta. split; [reflexivity|]. split; [vm_compute; discriminate|].
+  split; [apply refs_registeredb_sound; vm_compute; reflexivity|].
+  split; [apply refs_usedb_sound; vm_compute; reflexivity | reflexivity].
+Qed.
 
 (* ================================================================== extended-key signing verifies *)
 Lemma L_lt_two255 : L < two255. Proof. reflexivity. Qed.
@@ -674,15 +802,15 @@ Section EdProofs.
   Lemma wf_skey_wf_key k : wf_skey k -> wf_key k.
   Proof. destruct k; cbn; tauto. Qed.
 
-  Theorem witnesses_valid : forall b auto force keys body,
+  Theorem witnesses_valid : forall b auto force keys sel body,
     Forall wf_skey keys ->
-    forall w, In w (build_and_sign_witnesses SH H28 H32 ord_pub ord_sign ext_sign_model b auto force keys body) ->
+    forall w, In w (build_and_sign_witnesses SH H28 H32 ord_pub ord_sign ext_sign_model b auto force keys sel body) ->
       length (w_vk w) = 32%nat /\ ed_verify (w_vk w) (H32 body) (w_sig w).
   Proof.
-    intros b auto force keys body WF w Hw.
+    intros b auto force keys sel body WF w Hw.
     assert (WF' : Forall wf_key keys).
     { apply Forall_forall. intros k Hk. apply wf_skey_wf_key. rewrite Forall_forall in WF. auto. }
-    destruct (build_and_sign_spec SH H28 H32 ord_pub ord_sign ext_sign_model b auto force keys body WF') as (S1 & _).
+    destruct (build_and_sign_spec SH H28 H32 ord_pub ord_sign ext_sign_model b auto force keys sel body WF') as (S1 & _).
     destruct (S1 w Hw) as (k & Hk & Ev & Es & _). rewrite Ev, Es.
     rewrite Forall_forall in WF. specialize (WF k Hk). destruct k as [s mt|p mt]; cbn in *.
     - split; [apply ord_pub_length | now apply ord_sign_verifies].
@@ -730,13 +858,13 @@ Example witnesses_valid_nonvacuous :
   let H32 := fun b : bytes => firstn 32 b in
   let keys := [SkOrd (le 32 7) 1; SkExt (le 128 0) 11] in
   let SH := fun _ : nscript => hx "f1" in
-  let b := mkB [KeyH (firstn 28 (le 32 0))] [] [] [] [] [] [] [] [] [] [] [] None in
+  let b := mkB [KeyH (firstn 28 (le 32 0))] [] [] [] [] [] [] [] [] [] [] [] None [] [] in
   Forall (wf_skey unit (fun _ => tt) enc) keys
   /\ Forall wf_key keys
   /\ length (build_and_sign_witnesses SH H28 H32 ord_pub ord_sign (ext_sign_model unit (fun _ => tt) enc (fun _ => 0))
-               b None false keys (le 40 9)) = 1%nat
+               b None false keys no_selection (le 40 9)) = 1%nat
   /\ forall w, In w (build_and_sign_witnesses SH H28 H32 ord_pub ord_sign (ext_sign_model unit (fun _ => tt) enc (fun _ => 0))
-                       b None false keys (le 40 9)) ->
+                       b None false keys no_selection (le 40 9)) ->
        length (w_vk w) = 32%nat
        /\ ed_verify unit tt (fun _ _ => tt) (fun _ => tt) (fun _ => Some tt) (fun _ => 0) (w_vk w) (H32 (le 40 9)) (w_sig w).
 Proof.
